@@ -278,9 +278,11 @@ class HttpParser:
                 raw = memoryview(b'')
             # Mark request as complete if headers received and no incoming
             # body indication received.
+            # A request without either is complete too, what follows
+            # it in the same read belongs to the next request.
             elif self.state == httpParserStates.HEADERS_COMPLETE and \
                     not (self._content_expected or self._is_chunked_encoded) and \
-                    raw == b'':
+                    (raw == b'' or self.type == httpParserTypes.REQUEST_PARSER):
                 self.state = httpParserStates.COMPLETE
         self.buffer = None if raw == b'' else raw
 
